@@ -326,7 +326,12 @@ def open_db(name):
     if os.path.realpath(str(path)) != os.path.realpath(db_path(name)):
         CUR['ctx'].note_inconclusive('default %s database path %s is not the repository file' % (name, path))
     db = CircuitsDatabase(path)
-    db.open()
+    try:
+        db.open()
+    except Exception as e:
+        # the library cannot open the file it ships: no entry of it decodes
+        CUR['ctx'].unexpected('CircuitsDatabase.open', e, {'kind': 'open', 'db': name})
+        return None, []
     DBS[id(db)] = (db, name)
     keys = read_keys(db_path(name))
     CUR['index'][name] = set(keys)
@@ -336,6 +341,8 @@ def open_db(name):
 def run_entries(spec, ctx):
     name = spec['db']
     db, keys = open_db(name)
+    if db is None:
+        return
     ctx.info['entries_in_file:' + name] = len(keys) if spec['part'] == 0 else 0
     ctx.info['entries_total:' + name] = 1 if spec['part'] == 0 else 0
     if spec['part'] == 0 and len(keys) != len(set(keys)):
@@ -463,6 +470,8 @@ def run_lookups(spec, ctx):
     from cirbo.core.logic import DontCare
     name = spec['db']
     db, keys = open_db(name)
+    if db is None:
+        return
     rng = random.Random('%s:%s:lk:%s' % (ctx.seed, name, spec['part']))
     CUR['scribble_rng'] = random.Random('%s:scribble' % ctx.seed)
     # insertions the opened database must refuse (the label / normalised table is stored already): the caller catches the
@@ -572,6 +581,8 @@ def replay(case, ctx):
         return
     name = case['db']
     db, keys = open_db(name)
+    if db is None or case['kind'] == 'open':
+        return
     CUR['case'] = case
     if case['kind'] == 'entry':
         db.get_by_label(case['key'])
